@@ -1,4 +1,4 @@
-From Tab Require Export Run.Glue Base.PropsOps Model.Props Model.PropsHeap Spec.PropMap.
+From Tab Require Export Run.Glue Base.PropsOps Base.PropsViaOps Model.Props Model.PropsHeap Model.PropsVia Spec.PropMap Spec.PropMapVia.
 
 (* The observed trace is shipped as bytes (literal elaboration is the cost):
    per step the result, then per watched owner either 255 (no such owner) or
@@ -50,22 +50,24 @@ Fixpoint dec_trace (fuel nw nk : nat) (l : list N) : list stepobs :=
       end
   end.
 
-(* a case: key universe, watched owners, the history, and what the
-   implementation was observed to do after every step *)
-Definition c12_case := (list key * list owner * list op * list N)%type.
+(* a case: key universe, watched owners (each read through a facade: 0 = the
+   core table, S i = the i-th rendering wrapper made in the history), the
+   history (every op called through a facade; VWrap makes a wrapper), and what
+   the implementation was observed to do after every step *)
+Definition c12_case := (list key * list vowner * list vop * list N)%type.
 
 Definition c12_obs (c : c12_case) : list stepobs :=
   let '(U, watch, ops, tr) := c in dec_trace (S (length tr)) (length watch) (length U) tr.
 
 (* the property, judged on the implementation's own trace: it is the trace the
-   abstract maps predict from the history *)
-Definition C12_ok (U : list key) (watch : list owner) (ops : list op) (obs : list stepobs) : bool :=
-  universe_ok U ops && obs_eqb (expected U watch ops) obs.
+   abstract maps predict from the history (Spec/PropMapVia.v over Spec/PropMap.v) *)
+Definition C12_ok (U : list key) (watch : list vowner) (ops : list vop) (obs : list stepobs) : bool :=
+  vuniverse_ok U ops && obs_eqb (vexpected U watch ops) obs.
 
 Definition C12_model (c : c12_case) : list stepobs :=
-  let '(U, watch, ops, _) := c in m_run m_init U watch ops.
+  let '(U, watch, ops, _) := c in v_run v_init U watch ops.
 
 Definition C12_case (c : c12_case) : N :=
   let '(U, watch, ops, _) := c in
   let obs := c12_obs c in
-  code (obs_eqb (m_run m_init U watch ops) obs) (C12_ok U watch ops obs).
+  code (obs_eqb (v_run v_init U watch ops) obs) (C12_ok U watch ops obs).
